@@ -621,6 +621,13 @@ func (ex *Exec) globalObj(g *ssa.Global) *Object {
 	}
 	elem := g.Type().(*types.Pointer).Elem()
 	o := ex.newObject(elem, ex.zero(elem), "global:"+name)
+	// exported error variables of packages that are not executed from source (io.EOF,
+	// lz4.ErrInvalidSourceShortBuffer, ...) stand for themselves: one unique error value each
+	if types.Identical(elem, types.Universe.Lookup("error").Type()) && g.Pkg != nil && !strings.HasPrefix(g.Pkg.Pkg.Path(), pikeMod) && len(g.Pkg.Members) > 0 {
+		if fn := g.Pkg.Func("init"); fn == nil || fn.Blocks == nil {
+			o.Val = ex.libError(name)
+		}
+	}
 	o.Name = name
 	o.Owner = -1
 	ex.globals[name] = o
